@@ -1122,8 +1122,8 @@ def inline_single_use_temps(tree: ast.Module) -> int:
                         t = st.targets[0].id
                         if stores.get(t) != 1 or len(loads.get(t, [])) != 1:
                             continue
-                        if hasattr(st, "_ann") and t.startswith(RES):
-                            continue  # the declared return type of an absorbed helper would be lost: its result variable stays
+                        if hasattr(st, "_ann") and not hasattr(st.value, "_ann"):
+                            st.value._ann = st._ann  # type: ignore[attr-defined]  # the declared type travels with the expression
                         if any(isinstance(x, (ast.NamedExpr, ast.Yield, ast.YieldFrom, ast.Await)) for x in ast.walk(st.value)):
                             continue
                         use = loads[t][0]
